@@ -18,7 +18,7 @@ EXPLANATION = (
 
 def run(tier):
     cr = CheckRun("C05", tier, "other", EXPLANATION, "DESIGN §4 C05")
-    cr.contracts(["contracts.c05", "contracts.c05b", "contracts.c04", "contracts.c07", "contracts.c07b", "contracts.c02"])
+    cr.contracts(["contracts.c05", "contracts.c05b", "contracts.cdispatch", "contracts.c04", "contracts.c07", "contracts.c07b", "contracts.c02"])
     progs = gen.c05_scope(tier)
     length, limit = (4, 60) if tier == "quick" else (6, 800)
     for optimize in (True, False):
